@@ -388,6 +388,11 @@ Definition P_fields (fs : fields) : Prop :=
   forall obj xs, um_fields fixed cfg fs obj = Ok xs <->
                  decode_fields cfg fs obj = Some xs /\ meets_fields cfg fs obj = true.
 
+Definition Q_fields (fs : fields) : Prop :=
+  forall obj filled xs b,
+    um_opt_members fixed cfg fs obj filled = Ok (xs, b) <->
+    decode_opt_members cfg fs obj filled = Some xs /\ meets_opt_members cfg fs obj = true /\ b = fully_set fs obj.
+
 Lemma struct_case : forall fs, P_fields fs ->
   forall (v : jv) x,
     match v with JObj o => rmap VStruct (um_fields fixed cfg fs o) | _ => Err EType end = Ok x <->
@@ -420,9 +425,9 @@ Proof.
   apply map_with_iff. intros a b _. apply IH.
 Qed.
 
-Lemma main_mutual : (forall t, P_type t) /\ (forall fs, P_fields fs).
+Lemma main_mutual : (forall t, P_type t) /\ (forall fs, P_fields fs /\ Q_fields fs).
 Proof.
-  apply ftype_fields_ind.
+  apply (ftype_fields_ind P_type (fun fs => P_fields fs /\ Q_fields fs)).
   - (* TPrim *)
     intro k. unfold P_type. simpl. split; [|split].
     + intros o b v x. apply prim_present_iff.
@@ -451,7 +456,7 @@ Proof.
     + intros inmap v x. apply map_case. exact IH.
     + intro x. split. * intro H. inversion H. auto. * intros [H _]. inversion H. reflexivity.
   - (* TStruct *)
-    intros fs IH. unfold P_type. simpl. split; [|split].
+    intros fs [IH _]. unfold P_type. simpl. split; [|split].
     + intros o b v x. apply struct_case. exact IH.
     + intros inmap v x. apply struct_case. exact IH.
     + intro x. destruct (required_fields fs); simpl.
@@ -460,10 +465,14 @@ Proof.
         -- intros [a [H1 H2]]. apply IH in H1. destruct H1. split; [exists a; auto | auto].
         -- intros [[a [H1 H2]] H3]. exists a. split; [apply IH; auto | auto].
   - (* FNil *)
-    unfold P_fields. simpl. intros obj xs. split.
-    + intro H. inversion H. auto. + intros [H _]. inversion H. reflexivity.
+    split.
+    { unfold P_fields. simpl. intros obj xs. split.
+      + intro H. inversion H. auto. + intros [H _]. inversion H. reflexivity. }
+    { intros obj filled xs b. simpl. split.
+      + intro H. inversion H. auto. + intros [H [_ Hb]]. inversion H. subst. reflexivity. }
   - (* FCons *)
-    intros key o t [IHp [IHe IHa]] rest IHr. unfold P_fields. intros obj xs. simpl.
+    intros key o t [IHp [IHe IHa]] rest [IHr IHrq]. split.
+    { unfold P_fields. intros obj xs. simpl.
     rewrite bind_ok. split.
     + intros [x [Hx Hrest]].
       apply bind_ok in Hx. destruct Hx as [u [Hok Hx]]. apply guard_ok in Hok.
@@ -516,7 +525,93 @@ Proof.
            ++ destruct (declared_optional o obj); simpl in *.
               ** inversion Hx. reflexivity.
               ** apply IHa. auto.
-      * apply bind_ok. exists xs'. split; [apply IHr; auto | reflexivity].
+      * apply bind_ok. exists xs'. split; [apply IHr; auto | reflexivity]. }
+    { (* the same member inside an optional embedded struct *)
+      intros obj filled xs b. simpl. rewrite bind_ok. split.
+      - intros [[x bx] [Hx Hrest]].
+        apply bind_ok in Hx. destruct Hx as [u [Hok Hx]]. apply guard_ok in Hok.
+        apply bind_ok in Hx. destruct Hx as [ro [Hres Hx]]. apply resolve_iff in Hres.
+        destruct Hres as [Hdep Hro]. subst ro.
+        apply bind_ok in Hx. destruct Hx as [x' [Hx Hpair]]. inversion Hpair. subst x' bx. clear Hpair.
+        apply bind_ok in Hrest. destruct Hrest as [[xs' b'] [Hxs Hr]]. simpl in Hr. inversion Hr. subst xs b.
+        apply IHrq in Hxs. destruct Hxs as [Hd [Hm Hb]]. rewrite Hd, Hm, Hok, Hdep. simpl.
+        cut ((match field_input cfg t key obj with
+              | None => match opt_default o with
+                        | Some d => if filled then decode_default t d else Some (zero t)
+                        | None => Some (zero t)
+                        end
+              | Some JNull => Some (zero t)
+              | Some v => decode_present cfg (reads_strings cfg o) t v
+              end = Some x) /\
+             (match field_input cfg t key obj with
+              | None => true
+              | Some JNull => declared_optional o obj
+              | Some v => meets_present cfg t o v
+              end = true)).
+        { intros [H1 H2]. rewrite H1, H2. simpl. split; [reflexivity|]. split; [reflexivity|].
+          subst b'. unfold member_excused, ropts_for. simpl. rewrite orb_assoc. reflexivity. }
+        simpl in Hx.
+        destruct (field_input cfg t key obj) as [v|].
+        + destruct v; try (apply IHp in Hx; exact Hx).
+          destruct (declared_optional o obj); [|discriminate]. inversion Hx. auto.
+        + destruct (opt_default o) as [d|].
+          * rewrite andb_true_r in Hx. destruct filled.
+            -- apply um_default_iff in Hx. auto.
+            -- inversion Hx. auto.
+          * inversion Hx. auto.
+      - intros [Hd [Hm Hb]].
+        apply andb_true_iff in Hm. destruct Hm as [Hm Hmr].
+        apply andb_true_iff in Hm. destruct Hm as [Hm Hmf].
+        apply andb_true_iff in Hm. destruct Hm as [Hok Hdep].
+        apply obind_some in Hd. destruct Hd as [x [Hx Hd]].
+        apply obind_some in Hd. destruct Hd as [xs' [Hxs Hd]]. inversion Hd. subst xs.
+        exists (x, has key obj || member_excused fixed (ropts_for o (declared_optional o obj))). split.
+        + apply bind_ok. exists tt. split; [apply guard_ok; exact Hok|].
+          apply bind_ok. exists (ropts_for o (declared_optional o obj)). split.
+          { apply resolve_iff. auto. }
+          apply bind_ok. exists x. split; [|reflexivity].
+          simpl.
+          destruct (field_input cfg t key obj) as [v|].
+          * destruct v; try (apply IHp; auto).
+            rewrite Hmf. inversion Hx. reflexivity.
+          * destruct (opt_default o) as [d|].
+            -- rewrite andb_true_r. destruct filled.
+               ++ apply um_default_iff. exact Hx.
+               ++ inversion Hx. reflexivity.
+            -- inversion Hx. reflexivity.
+        + apply bind_ok. exists (xs', fully_set rest obj). split.
+          * apply IHrq. auto.
+          * simpl. subst b. unfold member_excused, ropts_for. simpl. rewrite orb_assoc. reflexivity. }
+  - (* FEmbed *)
+    intros opt ptr inner [IHi IHiq] rest [IHr IHrq]. split.
+    { unfold P_fields. intros obj xs. simpl. rewrite bind_ok. split.
+      - intros [x [Hx Hrest]]. apply bind_ok in Hrest. destruct Hrest as [ys [Hys Hr]]. inversion Hr. subst xs.
+        apply IHr in Hys. destruct Hys as [Hd Hm]. rewrite Hd, Hm.
+        destruct opt.
+        + apply bind_ok in Hx. destruct Hx as [[ms bm] [Hms Hx]].
+          apply bind_ok in Hx. destruct Hx as [u [Hg Hx]]. apply guard_ok in Hg.
+          simpl in Hg, Hx. inversion Hx. subst x.
+          apply IHiq in Hms. destruct Hms as [Hdm [Hmm Hbm]]. rewrite Hdm, Hmm. simpl. subst bm. rewrite Hg. auto.
+        + apply bind_ok in Hx. destruct Hx as [ms [Hms Hx]]. inversion Hx. subst x.
+          apply IHi in Hms. destruct Hms as [Hdm Hmm]. rewrite Hdm, Hmm. simpl. auto.
+      - intros [Hd Hm]. apply andb_true_iff in Hm. destruct Hm as [Hme Hmr].
+        apply obind_some in Hd. destruct Hd as [x [Hx Hd]].
+        apply obind_some in Hd. destruct Hd as [ys [Hys Hd]]. inversion Hd. subst xs.
+        exists x. split.
+        + destruct opt.
+          * apply andb_true_iff in Hme. destruct Hme as [Hmm Hfs].
+            apply obind_some in Hx. destruct Hx as [ms [Hms Hx]].
+            apply bind_ok. exists (ms, fully_set inner obj). split. { apply IHiq. auto. }
+            apply bind_ok. exists tt. split. { apply guard_ok. exact Hfs. }
+            simpl. inversion Hx. reflexivity.
+          * apply obind_some in Hx. destruct Hx as [ms [Hms Hx]].
+            apply bind_ok. exists ms. split. { apply IHi. auto. } inversion Hx. reflexivity.
+        + apply bind_ok. exists ys. split; [apply IHr; auto | reflexivity]. }
+    { intros obj filled xs b. simpl. rewrite bind_ok. split.
+      - intros [[xs' b'] [Hxs Hr]]. simpl in Hr. inversion Hr. subst xs b.
+        apply IHrq in Hxs. destruct Hxs as [Hd [Hm Hb]]. rewrite Hd, Hm. simpl. subst b'. auto.
+      - intros [Hd [Hm Hb]]. apply obind_some in Hd. destruct Hd as [xs' [Hxs Hd]]. inversion Hd. subst xs.
+        exists (xs', fully_set rest obj). split. { apply IHrq. auto. } simpl. subst b. reflexivity. }
 Qed.
 
 End Main.
@@ -526,7 +621,8 @@ Theorem unmarshal_iff : forall cfg fs d v,
 Proof.
   intros cfg fs d v. unfold unmarshal, decode, meets.
   destruct d as [[| | | | |o|]|]; try (split; [discriminate | intros [H _]; discriminate]).
-  rewrite rmap_ok, omap_some. destruct (main_mutual cfg) as [_ Hf]. split.
+  rewrite rmap_ok, omap_some. destruct (main_mutual cfg) as [_ Hf0].
+  pose proof (fun fs => proj1 (Hf0 fs)) as Hf. split.
   - intros [a [H1 H2]]. apply Hf in H1. destruct H1. split; [exists a; auto | auto].
   - intros [[a [H1 H2]] H3]. exists a. split; [apply Hf; auto | auto].
 Qed.
@@ -579,6 +675,13 @@ Proof.
   - specialize (IHt d). destruct (um_default t d); simpl; try discriminate. contradiction.
 Qed.
 
+Lemma bind_no_panic : forall {A B} (r : result A) (k : A -> result B),
+  r <> Panic -> (forall a, k a <> Panic) -> bind r k <> Panic.
+Proof. intros A B r k Hr Hk. destruct r; simpl; try discriminate; [apply Hk | contradiction]. Qed.
+
+Lemma guard_no_panic : forall b e, guard b e <> Panic.
+Proof. intros b e. destruct b; discriminate. Qed.
+
 Section NoPanic.
 Variable cfg : ucfg.
 
@@ -586,7 +689,9 @@ Definition N_type (t : ftype) : Prop :=
   (forall ro v, um_present fixed cfg t ro v <> Panic) /\
   (forall inmap v, um_elem fixed cfg inmap t v <> Panic) /\
   um_absent fixed cfg t <> Panic.
-Definition N_fields (fs : fields) : Prop := forall obj, um_fields fixed cfg fs obj <> Panic.
+Definition N_fields (fs : fields) : Prop :=
+  (forall obj, um_fields fixed cfg fs obj <> Panic) /\
+  (forall obj filled, um_opt_members fixed cfg fs obj filled <> Panic).
 
 Lemma rmap_no_panic : forall {A B} (f : A -> B) (r : result A), r <> Panic -> rmap f r <> Panic.
 Proof. intros A B f r H. destruct r; simpl; try discriminate. contradiction. Qed.
@@ -611,12 +716,21 @@ Proof.
     + intros ro v. destruct v; try discriminate. apply map_with_no_panic. apply He.
     + intros inmap v. destruct v; try discriminate. apply map_with_no_panic. apply He.
     + discriminate.
-  - intros fs Hf. unfold N_type. simpl. repeat split.
+  - intros fs [Hf _]. unfold N_type. simpl. repeat split.
     + intros ro v. destruct v; try discriminate. apply rmap_no_panic. apply Hf.
     + intros inmap v. destruct v; try discriminate. apply rmap_no_panic. apply Hf.
     + destruct (required_fields fs); try discriminate. apply rmap_no_panic. apply Hf.
-  - unfold N_fields. simpl. discriminate.
-  - intros key o t [Hp [He Ha]] rest Hr. unfold N_fields. intro obj. simpl.
+  - unfold N_fields. simpl. split; discriminate.
+  - intros key o t [Hp [He Ha]] rest [Hr Hrq]. unfold N_fields. split; [| intros obj filled; simpl;
+      apply bind_no_panic;
+      [ apply bind_no_panic; [apply guard_no_panic|]; intros _;
+        apply bind_no_panic; [apply resolve_no_panic|]; intro ro;
+        apply bind_no_panic; [| intro x; discriminate];
+        destruct (field_input cfg t key obj) as [v|];
+        [ destruct v; try apply Hp; destruct (ro_optional ro); discriminate
+        | destruct (ro_default ro); [destruct (filled && _); [apply um_default_no_panic | discriminate] | discriminate] ]
+      | intro xb; apply bind_no_panic; [apply Hrq | intro r; discriminate] ] ].
+    intro obj. simpl.
     assert (Hx : (_ <- guard (opts_ok o) ETag ;;
                   ro <- resolve fixed (u_canonical cfg) key o obj ;;
                   match field_input cfg t key obj with
@@ -636,6 +750,13 @@ Proof.
         + destruct (ro_optional ro); [discriminate | exact Ha]. }
     match goal with |- bind ?r _ <> Panic => destruct r; simpl; try discriminate; try contradiction end.
     specialize (Hr obj). destruct (um_fields fixed cfg rest obj); simpl; try discriminate. contradiction.
+  - intros opt ptr inner [Hi Hiq] rest [Hr Hrq]. unfold N_fields. split.
+    + intro obj. simpl. apply bind_no_panic.
+      * destruct opt.
+        -- apply bind_no_panic; [apply Hiq|]. intro r. apply bind_no_panic; [apply guard_no_panic|]. intros _. discriminate.
+        -- apply bind_no_panic; [apply Hi|]. intro xs. discriminate.
+      * intro x. apply bind_no_panic; [apply Hr|]. intro ys. discriminate.
+    + intros obj filled. simpl. apply bind_no_panic; [apply Hrq|]. intro r. discriminate.
 Qed.
 
 End NoPanic.
@@ -643,5 +764,5 @@ End NoPanic.
 Theorem unmarshal_no_panic : forall cfg fs d, unmarshal fixed cfg fs d <> Panic.
 Proof.
   intros cfg fs d. unfold unmarshal. destruct d as [[| | | | |o|]|]; try discriminate.
-  apply rmap_no_panic. apply (no_panic_mutual cfg).
+  apply rmap_no_panic. apply (proj2 (no_panic_mutual cfg)).
 Qed.
